@@ -384,3 +384,54 @@ theorem chainVector_head (sv : List Int) (h : selected sv ≠ []) : (chainVector
   · simp
 
 end Maps
+
+namespace Maps
+
+/-- d subset cycles further on, the chain number is unchanged exactly when the cycle index has
+    advanced by exactly d (every cycle in between is selected); it never decreases -/
+theorem chain_gap (sv : List Int) (m d : Nat) :
+    ∀ (a b : Nat) (x y : Int), (selected sv)[m]? = some a → (selected sv)[m + d]? = some b →
+      (chainVector sv)[m]? = some x → (chainVector sv)[m + d]? = some y →
+      x ≤ y ∧ a + d ≤ b ∧ (y = x ↔ b = a + d) := by
+  induction d with
+  | zero =>
+    intro a b x y ha hb hx hy
+    simp only [Nat.add_zero] at hb hy
+    rw [ha] at hb; rw [hx] at hy
+    injection hb with hb; injection hy with hy
+    subst hb hy
+    exact ⟨by omega, by omega, by simp⟩
+  | succ d ih =>
+    intro a b x y ha hb hx hy
+    have hlt : m + d + 1 < (selected sv).length := by
+      have := (List.getElem?_eq_some_iff.mp hb).1; omega
+    have hlt' : m + d < (selected sv).length := by omega
+    have hb' := List.getElem?_eq_getElem hlt'
+    have hlen := chainVector_length sv
+    have hy' := List.getElem?_eq_getElem (show m + d < (chainVector sv).length by omega)
+    obtain ⟨h1, h2, h3⟩ := ih a _ x _ ha hb' hx hy'
+    have hrec := chainVector_rec sv (m + d) _ b _ hb' hb hy'
+    rw [show m + (d + 1) = m + d + 1 by omega] at hy
+    rw [hy] at hrec
+    injection hrec with hrec
+    have hsorted : (selected sv)[m + d] < b := by
+      have hp := selectedFrom_sorted 0 sv
+      have hb2 : (selected sv)[m + d + 1] = b := by
+        have := List.getElem?_eq_getElem hlt
+        rw [show m + (d + 1) = m + d + 1 by omega, this] at hb
+        injection hb
+      rw [← hb2]
+      exact List.pairwise_iff_getElem.mp hp (m + d) (m + d + 1) hlt' hlt (by omega)
+    by_cases hadj : b = (selected sv)[m + d] + 1
+    · rw [if_pos hadj] at hrec
+      refine ⟨by omega, by omega, ?_⟩
+      rw [hrec]; constructor
+      · intro h; have := h3.mp h; omega
+      · intro h; exact h3.mpr (by omega)
+    · rw [if_neg hadj] at hrec
+      refine ⟨by omega, by omega, ?_⟩
+      constructor
+      · intro h; omega
+      · intro h; omega
+
+end Maps
